@@ -50,8 +50,10 @@ struct vf_ec_ghost {
 	struct { unsigned n; unsigned long bn[2], m[2]; } reduce;
 	struct { unsigned n, n3; unsigned long d, bn, m; } mult_digit;
 	struct { unsigned n; unsigned long a, b; int r, r0, r1; } cmp;
-	struct { int st; unsigned n; int fn; unsigned long a, b, c; } pop;
-	struct { unsigned n; _Bool z0, z1; } msub;
+	struct { int st; unsigned n; int fn; unsigned long a, b, c; int fnk[VF_IO_LOG]; unsigned long ak[VF_IO_LOG], bk[VF_IO_LOG], ck[VF_IO_LOG]; } pop;
+	struct { unsigned n; _Bool z0, z1; unsigned long bn0, n0, m0; } msub;
+	struct { unsigned n; unsigned long bn[VF_IO_LOG]; int r[VF_IO_LOG]; } iz;
+	struct { unsigned n; unsigned long bn[VF_IO_LOG], nn[VF_IO_LOG]; } mmul;
 	struct { unsigned n; unsigned long buf[VF_IO_LOG]; size_t size[VF_IO_LOG]; unsigned long bn[VF_IO_LOG]; } imp, exp;
 } vf_g;
 
@@ -95,9 +97,14 @@ struct vf_ec_ghost {
 #define vf_pop_a		vf_g.pop.a
 #define vf_pop_b		vf_g.pop.b
 #define vf_pop_c		vf_g.pop.c
+/* the first four point operations, in order */
+#define vf_pop_fnk		vf_g.pop.fnk
+#define vf_pop_ak		vf_g.pop.ak
+#define vf_pop_bk		vf_g.pop.bk
+#define vf_pop_ck		vf_g.pop.ck
 enum { VF_POP_none, VF_POP_import_affine, VF_POP_norm, VF_POP_export_affine, VF_POP_add, VF_POP_sub, VF_POP_dbl_n,
 	VF_POP_add_mix, VF_POP_sub_mix, VF_POP_fpx_mult, VF_POP_unkpt_mult, VF_POP_unkpt_pre, VF_POP_fpx_mult_affine,
-	VF_POP_unkpt_mult_affine, VF_POP_twin_mult, VF_POP_bin_mult };
+	VF_POP_unkpt_mult_affine, VF_POP_twin_mult, VF_POP_bin_mult, VF_POP_affine_add, VF_POP_affine_sub };
 /* the bn_t-level sign / verify / dh / key_gen when they are callees of the byte-string wrappers */
 #define vf_st_core		vf_g.core.st
 #define vf_n_core		vf_g.core.n
@@ -155,6 +162,18 @@ enum { VF_POP_none, VF_POP_import_affine, VF_POP_norm, VF_POP_export_affine, VF_
 #define vf_n_msub		vf_g.msub.n
 #define vf_msub_z0		vf_g.msub.z0
 #define vf_msub_z1		vf_g.msub.z1
+/* operands of the FIRST bn_mod_sub: bn = (bn - n) mod m */
+#define vf_msub_bn0		vf_g.msub.bn0
+#define vf_msub_n0		vf_g.msub.n0
+#define vf_msub_m0		vf_g.msub.m0
+/* bn_is_zero as a replaced callee (only where a job lists it): operand and result of the first four calls */
+#define vf_n_iz			vf_g.iz.n
+#define vf_iz_bn		vf_g.iz.bn
+#define vf_iz_r			vf_g.iz.r
+/* bn_mod_mult: bn = (bn * nn) mod m, operands of the first four calls */
+#define vf_n_mmul		vf_g.mmul.n
+#define vf_mmul_bn		vf_g.mmul.bn
+#define vf_mmul_nn		vf_g.mmul.nn
 #define vf_n_mult_digit		vf_g.mult_digit.n
 #define vf_n_mult_digit3	vf_g.mult_digit.n3	/* calls with digit 3 (the 3 X^2 of the doubling formulas) */
 #define vf_mult_digit_d		vf_g.mult_digit.d
